@@ -105,9 +105,9 @@ def run(chk):
     ok, det = lib.prove(chk, MODULES, min_examples=1)
     harness = lib.build_harness()
     quick = chk.tier == "quick"
-    count = 60 if quick else 2000
+    count = 60 if quick else 500
     sizes = [4, 8, 16] if quick else [4, 8, 16, 32]
-    nmaxs = E.NMAXS if quick else E.NMAXS + [257, 300, 512]
+    nmaxs = E.NMAXS if quick else E.NMAXS + [257, 300]
     recs, optexts, mism, drift, san, fails = explore(chk, harness, count, sizes, nmaxs, "main")
     chk.cov["evaluations"] = len(recs)
     chk.cov["distinct_nontrivial"] = len({r["optext"] for r in recs})
